@@ -10,9 +10,11 @@ import (
 	"time"
 
 	"github.com/btcsuite/btcd/chaincfg/v2"
+	"github.com/btcsuite/btcd/chainhash/v2"
 	"github.com/btcsuite/btcd/wire/v2"
 	"github.com/lightninglabs/neutrino/banman"
 	"github.com/lightninglabs/neutrino/cache/lru"
+	"github.com/lightninglabs/neutrino/headerfs"
 	"github.com/lightninglabs/neutrino/query"
 )
 
@@ -48,13 +50,28 @@ func (w *vpWorkManager) Query(reqs []*query.Request, _ ...query.QueryOption) cha
 	return errChan
 }
 
+// vpStaleSlotStore answers the lookup of one hash with another header.
+type vpStaleSlotStore struct {
+	*vpBlockStore
+	hash chainhash.Hash
+	hdr  wire.BlockHeader
+}
+
+func (s *vpStaleSlotStore) FetchHeader(h *chainhash.Hash) (*wire.BlockHeader, uint32, error) {
+	if *h == s.hash {
+		hd := s.hdr
+		return &hd, 1, nil
+	}
+	return s.vpBlockStore.FetchHeader(h)
+}
+
 var vpPeers = []string{"10.0.0.1:8333", "10.0.0.2:8333", "[2001:db8::9]:8333"}
 
 // VerifH_C06_getBlock: see the file comment.
 func VerifH_C06_getBlock() {
 	vpOpt("clock", 1)
 	db := vpNewDB()
-	store, err := banman.NewStore(db)
+	banStore, err := banman.NewStore(db)
 	if err != nil {
 		vpAssert(false, "ban-store-created")
 		return
@@ -65,6 +82,19 @@ func VerifH_C06_getBlock() {
 		Timestamp: time.Unix(1296689202, 0), Nonce: vpU32("wantNonce")}
 	bs := &vpBlockStore{hdrs: []wire.BlockHeader{genesis, want}, ctl: &vpWriteCtl{}}
 	wantHash := want.BlockHash()
+	// a damaged header store may answer the lookup of the requested hash with
+	// another header (an index entry pointing at a slot that holds something
+	// else): whatever it says, only a block with the requested hash may be returned
+	var store headerfs.BlockHeaderStore = bs
+	staleSlot := vpParam("staleslots", 1) == 1 && vpRange("headerStoreAnswersWithAnotherHeader", 0, 1) == 1
+	var slotHeader wire.BlockHeader
+	if staleSlot {
+		slotHeader = want
+		slotHeader.Nonce = vpU32("slotNonce")
+		vpAssume(slotHeader.Nonce != want.Nonce)
+		store = &vpStaleSlotStore{vpBlockStore: bs, hash: wantHash, hdr: slotHeader}
+		vpReach("header-store-answers-with-another-header")
+	}
 
 	nresp := vpRange("responses", 0, vpParam("maxresponses", 2))
 	wm := &vpWorkManager{}
@@ -75,10 +105,13 @@ func VerifH_C06_getBlock() {
 			r.blk = &wire.MsgBlock{Header: want}
 			r.same = true
 			r.msg = r.blk
-		case 1: // some other block
+		case 1: // some other block (with a damaged store: the one the store points at)
 			other := want
 			other.Nonce = vpU32("otherNonce")
 			vpAssume(other.Nonce != want.Nonce)
+			if staleSlot {
+				other = slotHeader
+			}
 			r.blk = &wire.MsgBlock{Header: other}
 			r.msg = r.blk
 		case 2: // not a block at all
@@ -87,16 +120,28 @@ func VerifH_C06_getBlock() {
 		wm.responses = append(wm.responses, r)
 	}
 	s := &ChainService{
-		BlockHeaders: bs,
+		BlockHeaders: store,
 		BlockCache:   lru.NewCache[wire.InvVect, *CacheableBlock](1 << 30),
 		workManager:  wm,
-		banStore:     store,
+		banStore:     banStore,
 		timeSource:   vpTimeSource{},
 		chainParams:  chaincfg.Params{Net: wire.SimNet},
 		quit:         make(chan struct{}),
 	}
 
 	blk, gerr := s.GetBlock(wantHash)
+	if staleSlot {
+		if blk != nil {
+			vpAssert(blk.MsgBlock().Header.BlockHash() == wantHash, "returned-block-has-the-requested-hash")
+		} else {
+			vpAssert(gerr != nil, "fails-rather-than-return-anything-else")
+		}
+		cachedS, cerrS := s.BlockCache.Get(*wire.NewInvVect(wire.InvTypeWitnessBlock, &wantHash))
+		if cerrS == nil && cachedS != nil {
+			vpAssert(cachedS.Block.MsgBlock().Header.BlockHash() == wantHash, "cached-block-has-the-requested-hash")
+		}
+		return
+	}
 
 	// reference: the first response that carries the requested header and is valid
 	firstValid := -1
@@ -153,7 +198,7 @@ func VerifH_C06_getBlock() {
 			vpReach("expect-ban")
 			vpAssert(banned, "sender-of-invalid-block-banned")
 			ipNet, _ := banman.ParseIPNet(p, nil)
-			st, _ := store.Status(ipNet)
+			st, _ := banStore.Status(ipNet)
 			vpAssert(st.Reason == banman.InvalidBlock, "ban-reason-invalid-block")
 		} else {
 			vpAssert(!banned, "other-peers-not-banned")
